@@ -19,6 +19,7 @@ mod simalloc;
 
 use interp::Prop;
 
+#[cfg(not(miri))]
 #[global_allocator]
 static GLOBAL: simalloc::SimAlloc = simalloc::SimAlloc;
 
@@ -75,6 +76,24 @@ fn main() {
             })
         }
         Some("replay") if args.len() >= 3 => orch::cmd_replay(&args[2]),
+        // Miri tier (run under `cargo +nightly miri run`): in-process, no fork,
+        // SimAlloc compiled out — Miri's abstract machine is the allocator model.
+        Some("miri") if args.len() >= 5 => {
+            let Some(prop) = Prop::from_id(&args[2]) else { std::process::exit(usage()) };
+            let base = args.get(5).and_then(|v| v.parse().ok()).unwrap_or(orch::DEFAULT_SEED);
+            let code = orch::cmd_miri(prop, base, args[3].parse().expect("directed stride"), args[4].parse().expect("seeded count"));
+            if code == 0 {
+                return; // let Miri run its end-of-program leak check
+            }
+            code
+        }
+        Some("miri-replay") if args.len() >= 3 => {
+            let code = orch::cmd_miri_replay(&args[2]);
+            if code == 0 {
+                return;
+            }
+            code
+        }
         Some("show") if args.len() >= 5 => {
             let Some(prop) = Prop::from_id(&args[2]) else { std::process::exit(usage()) };
             let mode = match args[3].as_str() {
